@@ -5,8 +5,9 @@ from sexpr import enc, hexs, unhex
 from odata_query import ast
 from odata_query.grammar import ODataLexer, ODataParser
 
-PROP_MODS = ["ODataVerif.Tie.ParserTables", "ODataVerif.Props.C19", "ODataVerif.Props.C13Text", "ODataVerif.Props.C19Text"]
+PROP_MODS = ["ODataVerif.Props.Accepted", "ODataVerif.Tie.ParserTables", "ODataVerif.Props.C19", "ODataVerif.Props.C13Text", "ODataVerif.Props.C19Text"]
 WS_RUNS = [" ", "  ", "\t", "\n", " \n ", "\r\n", "\n\n", "\t \t", "\x0b", "\x0c", " ", " "]
+LONG_RUNS = [" " * 64, " " * 65, "\n" + " " * 72, "\n" * 4 + "\t" * 30 + " " * 40, " " * 500, "\t" * 129, " \r\n" * 100, " " * 5000]
 OPS = {"ADD", "SUB", "MUL", "DIV", "MOD", "AND", "OR", "EQ", "NE", "LT", "LE", "GT", "GE", "IN"}
 
 def tokens_with_text(text):
@@ -161,6 +162,16 @@ def run(ctx):
                 continue
             if v not in seen:
                 seen.add(v); cases.append((f, v, mode))
+        # every whitespace position filled with ONE very long run (alignment, continuation lines, pasted indentation)
+        if f in WS_LITERALS or f in base[:12]:
+            for run in LONG_RUNS:
+                for mode in ("ws", "all"):
+                    try:
+                        v = variant(rng, f, mode, [run], p_ins=1.0)
+                    except Exception:  # noqa
+                        continue
+                    if v not in seen:
+                        seen.add(v); cases.append((f, v, mode))
         if f in LONG:
             for runs in ([" "], ["\n"], ["  \t "]):
                 try:
